@@ -643,6 +643,119 @@ theorem C20_plot_one_line_per_requested_measure (t : Table) (spec : MeasureSpec)
       rw [hx, hnone] at this
       cases this
 
+theorem plotLines_labels (t : Table) : ∀ (rs : List (String × Option String × Option String)) (ls : List PlotLine),
+    plotLines t rs = .ok ls →
+    ls.map (fun l => (l.label, l.color)) = rs.map (fun r => (r.2.1, r.2.2)) ∧
+    rs.map (fun r => t.lookup r.1) = ls.map (fun l => some l.ys)
+  | [], ls, h => by
+    simp only [plotLines] at h
+    injection h with h
+    subst h
+    exact ⟨rfl, rfl⟩
+  | (m, label, color) :: rest, ls, h => by
+    simp only [plotLines] at h
+    cases hl : t.lookup m with
+    | none => rw [hl] at h; cases h
+    | some ys =>
+      rw [hl] at h
+      simp only at h
+      cases hr : plotLines t rest with
+      | error e => rw [hr] at h; cases h
+      | ok ls' =>
+        rw [hr] at h
+        injection h with h
+        subst h
+        obtain ⟨i1, i2⟩ := plotLines_labels t rest ls' hr
+        exact ⟨by simp only [List.map_cons, i1], by simp only [List.map_cons, i2, hl]⟩
+
+/-- How the lines of a measure plot are labelled and coloured, form by form: a string is plotted without label and colour
+    (the y label names it), a dict entry `m: colour` as the line of `m`'s values labelled `m` in that colour, a list /
+    tuple entry labelled with the measure in the next colour of the cycle; anything else plots nothing. -/
+theorem C20_plot_lines_labelled_and_coloured (t : Table) (spec : MeasureSpec) (pl : Plot) (h : plotMeasure t spec = .ok pl) :
+    (∀ m, spec = .str m → pl.lines.map (fun l => (l.label, l.color)) = [(none, none)] ∧ [t.lookup m] = pl.lines.map (fun l => some l.ys)) ∧
+    (∀ ms, spec = .dict ms → pl.lines.map (fun l => (l.label, l.color)) = ms.map (fun mc => (some mc.1, some mc.2)) ∧
+      ms.map (fun mc => t.lookup mc.1) = pl.lines.map (fun l => some l.ys)) ∧
+    (∀ ms, spec = .list ms ∨ spec = .tuple ms → pl.lines.map (fun l => (l.label, l.color)) = ms.map (fun m => (some m, none)) ∧
+      ms.map (fun m => t.lookup m) = pl.lines.map (fun l => some l.ys)) ∧
+    (spec = .other → pl.lines = []) := by
+  unfold plotMeasure at h
+  cases hr : plotLines t spec.requests with
+  | error e => rw [hr] at h; cases h
+  | ok ls =>
+    rw [hr] at h
+    injection h with h
+    subst h
+    obtain ⟨h1, h2⟩ := plotLines_labels t _ ls hr
+    refine ⟨fun m hs => ?_, fun ms hs => ?_, fun ms hs => ?_, fun hs => ?_⟩
+    · subst hs
+      exact ⟨h1, h2⟩
+    · subst hs
+      simp only [MeasureSpec.requests, List.map_map] at h1 h2
+      exact ⟨h1, h2⟩
+    · rcases hs with hs | hs <;> subst hs <;> simp only [MeasureSpec.requests, List.map_map] at h1 h2 <;> exact ⟨h1, h2⟩
+    · subst hs
+      simp only [MeasureSpec.requests, List.map_nil] at h1
+      simpa using h1
+
+theorem relocate_not_value (ly : Layout) : ∀ es, relocate ly es ≠ .error .value
+  | [] => by simp [relocate]
+  | e :: es => by
+    have ih := relocate_not_value ly es
+    unfold relocate
+    cases ly.lookup e.loc.x with
+    | none => simp
+    | some pos =>
+      simp only
+      cases hr : relocate ly es with
+      | error err =>
+        rw [hr] at ih
+        simp only
+        intro h
+        injection h with h
+        subst h
+        exact ih rfl
+      | ok es' => simp
+
+/-- What the plot and network entry points refuse: `make_plot_component` takes the backend "matplotlib", answers
+    NotImplementedError for "altair" and ValueError for every other name; `draw_network` with a caller's layout raises
+    ValueError exactly when the layout is empty (whatever the agents and their portrayals are). -/
+theorem C20_plot_backend_and_empty_layout (backend : String) (sp : Space) (heap : Heap) (p : Portrayal) (ly : Layout) :
+    (plotBackend backend = .ok () ↔ backend = "matplotlib") ∧
+    (plotBackend backend = .error .notImplemented ↔ backend = "altair") ∧
+    (plotBackend backend = .error .value ↔ backend ≠ "matplotlib" ∧ backend ≠ "altair") ∧
+    (drawNetwork sp heap p ly = .error .value ↔ ly = []) := by
+  refine ⟨?_, ?_, ?_, ?_⟩
+  · unfold plotBackend
+    by_cases h1 : backend = "matplotlib"
+    · simp [h1]
+    · by_cases h2 : backend = "altair" <;> simp [h1, h2]
+  · unfold plotBackend
+    by_cases h1 : backend = "matplotlib"
+    · subst h1; decide
+    · by_cases h2 : backend = "altair" <;> simp [h1, h2]
+  · unfold plotBackend
+    by_cases h1 : backend = "matplotlib"
+    · simp [h1]
+    · by_cases h2 : backend = "altair" <;> simp [h1, h2]
+  · unfold drawNetwork
+    cases ly with
+    | nil => simp
+    | cons a rest =>
+      simp only [List.isEmpty_cons, Bool.false_eq_true, if_false]
+      cases collectAgentData drawDefaults heap p (spaceAgents sp) with
+      | none => simp
+      | some es =>
+        simp only
+        cases hr : relocate (a :: rest) es with
+        | error err =>
+          have := relocate_not_value (a :: rest) es
+          rw [hr] at this
+          simp only
+          constructor
+          · intro h; injection h with h; subst h; exact absurd rfl this
+          · intro h; cases h
+        | ok es' => simp
+
 /-! ## Altair -/
 
 /-- `_draw_grid` hands Altair one row per agent currently in the space (for the space classes Altair
@@ -925,7 +1038,7 @@ theorem C20_draw_space_with_layers {sp : Space} (h : Reachable sp) (hr : drawRai
     a colour nor a colormap, a hex layer over an inverted range (ValueError, raised by `Normalize`). -/
 theorem C20_layers_refused (fam : Family) (layers : List (String × Layer)) (name : String) (L : Layer) (pt : LayerPortrayal) :
     ((fam.isOrthogonal || fam.isHex) = false → ∀ ports, drawLayers fam layers ports = .error .attribute) ∧
-    (pt.mode = .neither → ∃ e, drawLayer fam name L pt = .error e) ∧
+    (pt.mode = .neither → drawLayer fam name L pt = .error .value) ∧
     (fam.isHex = true → ∀ vmin vmax, layerRange L pt = some (vmin, vmax) → vmax < vmin →
       drawLayer fam name L pt = .error .value) := by
   refine ⟨fun h ports => by unfold drawLayers; rw [h]; rfl, fun hm => ?_, fun hf vmin vmax hr hlt => ?_⟩
@@ -974,6 +1087,17 @@ theorem C20_check_accepts_iff_binds_by_keyword (sig : List Param) (keys : List S
     checkModelParams sig keys = .ok () ↔ hasVarPositional sig = false ∧ bindsByKeyword sig keys :=
   checkModelParams_ok_iff sig keys
 
+/-- The check told about keywords the caller of the constructor passes anyway (fix P3: `simulator`, which a
+    `SimulatorController` adds on every reset) accepts exactly when the call `init(instance, **extra, **params)` can be
+    made: no parameter has the name of such a keyword (it would be passed twice), and the constructor binds the extra
+    keywords together with the parameters — a class that cannot take `simulator=` is refused, a class that requires it is
+    not reported as missing it. -/
+theorem C20_check_with_controller_keywords (sig : List Param) (extra keys : List String) :
+    (checkModelParamsExtra sig extra keys = .ok () ↔
+      hasVarPositional sig = false ∧ (∀ k ∈ extra, k ∉ keys) ∧ bindsByKeyword sig (extra ++ keys)) ∧
+    checkModelParamsExtra sig [] keys = checkModelParams sig keys :=
+  ⟨checkModelParamsExtra_ok_iff sig extra keys, checkModelParamsExtra_nil sig keys⟩
+
 /-- The split into user-adjustable and fixed parameters loses and invents nothing, keeps the order inside
     each part, puts a parameter into the fixed part exactly when `check_param_is_fixed` says so, and — the
     names of a dict being distinct — no name lands in both parts. -/
@@ -995,10 +1119,12 @@ theorem C20_split_lossless_disjoint (ps : List (String × PyVal)) :
     exact hp.2.2 k h1 k h2 rfl
 
 /-- `ModelCreator` (fix P2) checks the constructor against all parameters, the user-adjustable ones
-    included: it accepts exactly when `_check_model_params` accepts the whole parameter dict. -/
-theorem C20_creator_checks_all_params (sig : List Param) (ps : List (String × PyVal)) :
-    creatorCheck sig ps = .ok () ↔ checkModelParams sig (ps.map (·.1)) = .ok () :=
-  creatorCheck_ok_iff sig ps
+    included: it accepts exactly when `_check_model_params` accepts the whole parameter dict (with the keywords of the
+    controller, if any). -/
+theorem C20_creator_checks_all_params (sig : List Param) (ps : List (String × PyVal)) (extra : List String) :
+    (creatorCheck sig ps extra = .ok () ↔ checkModelParamsExtra sig extra (ps.map (·.1)) = .ok ()) ∧
+    (creatorCheck sig ps = .ok () ↔ checkModelParams sig (ps.map (·.1)) = .ok ()) :=
+  ⟨creatorCheck_ok_iff sig ps extra, by rw [creatorCheck_ok_iff sig ps [], checkModelParamsExtra_nil]⟩
 
 /-! ## ModelCreator: from `model_params` to the parameters the model is (re-)created with -/
 
@@ -1039,33 +1165,40 @@ theorem C20_user_inputs_one_per_adjustable_param (us : List (String × ParamVal)
     simp at this
 
 /-- `ModelCreator` renders without an error exactly when every input type is supported and the constructor can be
-    called by keyword with the parameter set it hands on (`initialParams`) — the check of the full `model_params`
-    is a check of the call `Model(**model_parameters)` that a reset makes. -/
-theorem C20_creator_accepts_iff_model_can_be_created (sig : List Param) (ps : List (String × ParamVal)) :
-    (∃ r, modelCreator sig ps = .ok r) ↔
+    called by keyword with the parameter set it hands on (`initialParams`) together with the keywords `extra` the
+    controller adds — the check of the full `model_params` is a check of the call `Model(**model_parameters)`
+    (`Model(simulator=simulator, **model_parameters)`) that a reset makes. -/
+theorem C20_creator_accepts_iff_model_can_be_created (sig : List Param) (ps : List (String × ParamVal)) (extra : List String) :
+    (∃ r, modelCreator sig ps extra = .ok r) ↔
       (∃ ws, userInputs (splitParams ps).1 = .ok ws) ∧ hasVarPositional sig = false ∧
-        bindsByKeyword sig ((initialParams ps).map (·.1)) := by
+        (∀ k ∈ extra, k ∉ (initialParams ps).map (·.1)) ∧
+        bindsByKeyword sig (extra ++ (initialParams ps).map (·.1)) := by
   have hkeys : ∀ k, k ∈ (ps.map fun kv => (kv.1, kv.2.toPy)).map (·.1) ↔ k ∈ (initialParams ps).map (·.1) := by
     intro k
     rw [((C20_creator_params_lossless ps).2.1).mem_iff, List.map_map]
     rfl
-  have hcheck : creatorCheck sig (ps.map fun kv => (kv.1, kv.2.toPy)) = .ok () ↔
-      hasVarPositional sig = false ∧ bindsByKeyword sig ((initialParams ps).map (·.1)) := by
-    rw [creatorCheck_ok_iff, checkModelParams_ok_iff]
-    exact and_congr_right fun _ => bindsByKeyword_congr hkeys
+  have hcheck : creatorCheck sig (ps.map fun kv => (kv.1, kv.2.toPy)) extra = .ok () ↔
+      hasVarPositional sig = false ∧ (∀ k ∈ extra, k ∉ (initialParams ps).map (·.1)) ∧
+        bindsByKeyword sig (extra ++ (initialParams ps).map (·.1)) := by
+    rw [creatorCheck_ok_iff sig _ extra, checkModelParamsExtra_ok_iff]
+    refine and_congr_right fun _ => and_congr ?_ (bindsByKeyword_congr fun k => ?_)
+    · exact forall_congr' fun k => imp_congr_right fun _ => not_congr (hkeys k)
+    · rw [List.mem_append, List.mem_append, hkeys k]
   unfold modelCreator
   cases hu : userInputs (splitParams ps).1 with
   | error t => simp
   | ok ws =>
     simp only
-    cases hc : creatorCheck sig (ps.map fun kv => (kv.1, kv.2.toPy)) with
+    cases hc : creatorCheck sig (ps.map fun kv => (kv.1, kv.2.toPy)) extra with
     | error e =>
-      have : ¬(hasVarPositional sig = false ∧ bindsByKeyword sig ((initialParams ps).map (·.1))) := by
+      have : ¬(hasVarPositional sig = false ∧ (∀ k ∈ extra, k ∉ (initialParams ps).map (·.1)) ∧
+          bindsByKeyword sig (extra ++ (initialParams ps).map (·.1))) := by
         rw [← hcheck, hc]; simp
-      simp [this]
+      exact ⟨fun ⟨r, hr⟩ => by simp at hr, fun ⟨_, hh⟩ => absurd hh this⟩
     | ok u =>
       have := hcheck.mp (by rw [hc])
-      simp [this]
+      cases u
+      exact ⟨fun _ => ⟨⟨ws, rfl⟩, this⟩, fun _ => ⟨_, rfl⟩⟩
 
 /-- A change of an input (`on_change(name, value)` for a name the parameter set has) replaces the value under that
     name and nothing else: the names — hence whether the constructor can be called with the set — stay the same. -/
@@ -1122,24 +1255,30 @@ theorem C20_ctrl_steps_never_go_back (beh : Behaviour) (c : Ctrl) (ops : List Ct
     ((c.run beh ops).gen = c.gen → c.steps ≤ (c.run beh ops).steps ∧ (c.run beh ops).kwargs = c.kwargs) :=
   run_before beh ops c
 
-/-- If `SolaraViz` renders (the inputs are supported and `ModelCreator`'s check accepts `model_params`), then after
-    every history of user actions the parameter set still has exactly the names `ModelCreator` handed on, every model
-    a reset has created was called with exactly these names, and the constructor binds them by keyword: no reset can
-    fail on its arguments, whatever the inputs were changed to. -/
+/-- If `SolaraViz` renders (the inputs are supported and `ModelCreator`'s check accepts `model_params`) — with a
+    `ModelController` (`sim = false`) or with a `SimulatorController` (`sim = true`) —, then after every history of user
+    actions the parameter set still has exactly the names `ModelCreator` handed on, every model a reset has created was
+    called with exactly these names besides the controller's own keywords (`extraKeywords`: `simulator` under a
+    `SimulatorController`, nothing otherwise), no parameter has the name of such a keyword, and the constructor binds
+    the controller's keywords together with the parameters: no reset can fail on its arguments, whatever the inputs
+    were changed to. -/
 theorem C20_ctrl_every_reset_gets_the_whole_parameter_set (beh : Behaviour) (sig : List Param)
-    (ps : List (String × ParamVal)) (kw0 : Params) (r : Nat) (t : Bool) (c0 : Ctrl)
-    (h : Ctrl.init sig ps kw0 r t = .ok c0) (ops : List CtrlOp) :
+    (ps : List (String × ParamVal)) (kw0 : Params) (r : Nat) (t sim : Bool) (c0 : Ctrl)
+    (h : Ctrl.init beh sig ps kw0 r t sim = .ok c0) (ops : List CtrlOp) :
     (c0.run beh ops).params.map (·.1) = (initialParams ps).map (·.1) ∧
     (0 < (c0.run beh ops).gen → (c0.run beh ops).kwargs.map (·.1) = (initialParams ps).map (·.1)) ∧
-    hasVarPositional sig = false ∧ bindsByKeyword sig ((c0.run beh ops).params.map (·.1)) := by
+    (c0.run beh ops).extraKeywords = (if sim then ["simulator"] else []) ∧
+    hasVarPositional sig = false ∧
+    (∀ k ∈ (c0.run beh ops).extraKeywords, k ∉ (c0.run beh ops).params.map (·.1)) ∧
+    bindsByKeyword sig ((c0.run beh ops).extraKeywords ++ (c0.run beh ops).params.map (·.1)) := by
   unfold Ctrl.init at h
-  cases hm : modelCreator sig ps with
+  cases hm : modelCreator sig ps (if sim then ["simulator"] else []) with
   | error e => rw [hm] at h; exact absurd h (by simp)
   | ok res =>
     obtain ⟨mp, ws⟩ := res
     rw [hm] at h
     injection h with h
-    have hacc := (C20_creator_accepts_iff_model_can_be_created sig ps).mp ⟨_, hm⟩
+    have hacc := (C20_creator_accepts_iff_model_can_be_created sig ps _).mp ⟨_, hm⟩
     -- what `modelCreator` returned
     have hmp : mp = initialParams ps ∧ userInputs (splitParams ps).1 = .ok ws := by
       unfold modelCreator at hm
@@ -1148,7 +1287,7 @@ theorem C20_ctrl_every_reset_gets_the_whole_parameter_set (beh : Behaviour) (sig
       | ok ws' =>
         rw [hu] at hm
         simp only at hm
-        cases hc : creatorCheck sig (ps.map fun kv => (kv.1, kv.2.toPy)) with
+        cases hc : creatorCheck sig (ps.map fun kv => (kv.1, kv.2.toPy)) (if sim then ["simulator"] else []) with
         | error e => rw [hc] at hm; exact absurd hm (by simp)
         | ok u =>
           rw [hc] at hm
@@ -1164,17 +1303,25 @@ theorem C20_ctrl_every_reset_gets_the_whole_parameter_set (beh : Behaviour) (sig
       rw [initialParams_keys]
       exact List.mem_append_right _ hn
     have hrun := run_paramsInv beh _ ops c0 hinv
-    refine ⟨hrun.1, hrun.2.2, hacc.2.1, ?_⟩
-    rw [hrun.1]
-    exact hacc.2.2
+    have hsim : (c0.run beh ops).extraKeywords = (if sim then ["simulator"] else []) := by
+      unfold Ctrl.extraKeywords
+      rw [run_sim beh ops c0]
+      subst h
+      rfl
+    refine ⟨hrun.1, hrun.2.2, hsim, hacc.2.1, ?_, ?_⟩
+    · rw [hrun.1, hsim]
+      exact hacc.2.2.1
+    · rw [hrun.1, hsim]
+      exact hacc.2.2.2
 
-/-- A reset after any sequence of input changes creates a fresh model (step 0, not playing, running) whose keyword
+/-- A reset after any sequence of input changes creates a fresh model (step 0, not playing, the flag of the buttons on
+    — whatever the new model says of itself: `mrunning` is the class's answer for these arguments at step 0) whose keyword
     arguments are the whole parameter set — every name once — with, for each name, the value its input reported last,
     and the value it had before for a name no input reported. -/
 theorem C20_ctrl_reset_uses_latest_inputs (beh : Behaviour) (c : Ctrl) (names : List String) (hi : c.paramsInv names)
     (changes : List (String × Val)) (hin : ∀ ch ∈ changes, ch.1 ∈ c.inputs) :
     let c' := c.run beh (changes.map (fun ch => CtrlOp.change ch.1 ch.2) ++ [.reset])
-    c'.gen = c.gen + 1 ∧ c'.steps = 0 ∧ c'.playing = false ∧ c'.running = true ∧ c'.mrunning = true ∧
+    c'.gen = c.gen + 1 ∧ c'.steps = 0 ∧ c'.playing = false ∧ c'.running = true ∧ c'.mrunning = beh c'.kwargs 0 ∧
     c'.kwargs.map (·.1) = names ∧
     ∀ name, c'.kwargs.lookup name = match lastChange changes name with
       | some v => some (some v)
@@ -1210,11 +1357,11 @@ theorem C20_ctrl_pause (beh : Behaviour) (c : Ctrl) (hp : c.playing = true) (hr 
       (doStep beh (some j) c).gen = c.gen) := by
   constructor
   · intro rest
-    have hf : (applyEv c .pause).playing = false ∧ (applyEv c .pause).steps = c.steps ∧ (applyEv c .pause).render = c.render ∧
-        (applyEv c .pause).updates = c.updates ∧ (applyEv c .pause).gen = c.gen := by
+    have hf : (applyEv beh c .pause).playing = false ∧ (applyEv beh c .pause).steps = c.steps ∧ (applyEv beh c .pause).render = c.render ∧
+        (applyEv beh c .pause).updates = c.updates ∧ (applyEv beh c .pause).gen = c.gen := by
       simp [applyEv, Ctrl.clickPlay, hr, hp]
     simp only [playLoop, hp, hr, Bool.and_self, if_true]
-    generalize applyEv c Ev.pause = c1 at *
+    generalize applyEv beh c Ev.pause = c1 at *
     obtain ⟨f1, f2, f3, f4, f5⟩ := hf
     obtain ⟨⟨_, _, _, a4, _, _, a7⟩, _⟩ := stepLoop_spec beh false none c1.render 1 c1
     obtain ⟨g1, g2⟩ := stepLoop_all beh false c1.render 1 c1 (fun h => absurd h (by simp))
@@ -1233,13 +1380,39 @@ theorem C20_ctrl_pause (beh : Behaviour) (c : Ctrl) (hp : c.playing = true) (hr 
     · exact ⟨by rw [hk.1]; omega, hk.2, a4⟩
     · exact ⟨by simp only; rw [hk.1]; omega, hk.2, a4⟩
 
-/-- As long as the threads checkbox is left alone, the flag the buttons are drawn from (`running`: Step and ▶ / ❚❚ are
-    disabled without it) is the model's own `running` after every history of user actions.  (Toggling the checkbox
-    mounts the controller anew with the flag on — `ctrlThreadsWitness` below: the buttons of a stopped model come back.) -/
+/-- As long as the threads checkbox is left alone, after every history of user actions `model.running` is what the
+    model class says of the current model at its current step, and the flag the buttons are drawn from (`running`: Step
+    and ▶ / ❚❚ are disabled without it) is the model's own `running` — with one exception: a model that has not been
+    stepped since a reset (or the first render) created it has the flag on whatever it says of itself, because
+    `do_reset` sets `running.value = True` and never reads `model.running`.  For a class whose instances start
+    `running` (what `mesa.Model.__init__` does) the flag is the model's throughout.  (Toggling the checkbox mounts the
+    controller anew with the flag on — `ctrlThreadsWitness` below: the buttons of a stopped model come back.) -/
 theorem C20_ctrl_running_flag_is_the_models (beh : Behaviour) (c : Ctrl) (ops : List CtrlOp)
-    (hops : ∀ op ∈ ops, op.isThreads = false) (h : c.running = c.mrunning) :
-    (c.run beh ops).running = (c.run beh ops).mrunning :=
-  run_flag beh ops c hops h
+    (hops : ∀ op ∈ ops, op.isThreads = false) (hm : c.mrunning = beh c.kwargs c.steps)
+    (h : c.running = c.mrunning ∨ (c.steps = 0 ∧ c.running = true)) :
+    let c' := c.run beh ops
+    c'.mrunning = beh c'.kwargs c'.steps ∧
+    (c'.running = c'.mrunning ∨ (c'.steps = 0 ∧ c'.running = true ∧ beh c'.kwargs 0 = false)) ∧
+    ((∀ kw, beh kw 0 = true) → c'.running = c'.mrunning) := by
+  obtain ⟨h1, h2⟩ := run_flagInv beh ops c hops ⟨hm, h⟩
+  refine ⟨h1, ?_, fun hb => ?_⟩
+  · rcases h2 with h2 | ⟨h3, h4⟩
+    · exact Or.inl h2
+    · cases hb : beh (c.run beh ops).kwargs 0 with
+      | true => left; rw [h1, h3, hb, h4]
+      | false => exact Or.inr ⟨h3, h4, rfl⟩
+  · rcases h2 with h2 | ⟨h3, h4⟩
+    · exact h2
+    · rw [h1, h3, hb, h4]
+
+/-- The exception is real: a model class that stops in its constructor when created with `stop=0`, Reset:
+    the new model is not running, the flag is on and Step can be clicked. -/
+theorem C20_ctrl_reset_flag_ignores_a_stopped_model :
+    let beh : Behaviour := fun kw _ => decide (kw.lookup "stop" ≠ some (some "0"))
+    let c : Ctrl := { params := [("stop", some "0")], kwargs := [] }
+    ((c.run beh [.reset]).mrunning, (c.run beh [.reset]).running, ((c.run beh [.reset]).apply beh .step).isSome) =
+      (false, true, true) := by
+  decide
 
 /-! ## non-vacuity -/
 
@@ -1351,8 +1524,20 @@ def exCtrlSig : List Param := [⟨"self", .posOrKw, false⟩, ⟨"kw", .varKw, f
 def exCtrl : Ctrl :=
   { params := [("n", some "2"), ("stop", some "5")], inputs := ["stop"], kwargs := [("stop", some "3")], render := 2 }
 
-example : Ctrl.init exCtrlSig [("stop", .slider false "Stop" "5"), ("n", .plain "2")] [("stop", some "3")] 2 false = .ok exCtrl := by
+example : Ctrl.init exBeh exCtrlSig [("stop", .slider false "Stop" "5"), ("n", .plain "2")] [("stop", some "3")] 2 false = .ok exCtrl := by
   decide
+
+-- with a `SimulatorController`: a class that cannot take `simulator=` is refused, a class that requires it renders and the
+-- resets pass it; the same class under a `ModelController` is refused as missing it; `simulator` among the parameters
+-- would be passed twice
+def exSimSig : List Param := [⟨"self", .posOrKw, false⟩, ⟨"simulator", .posOrKw, false⟩, ⟨"n", .posOrKw, true⟩]
+example : Ctrl.init exBeh [⟨"self", .posOrKw, false⟩, ⟨"n", .posOrKw, true⟩] [("n", .plain "2")] [] 1 false true =
+    .error (.check (.invalid "simulator")) := by decide
+example : (Ctrl.init exBeh exSimSig [("n", .plain "2")] [] 1 false true).toOption.map (fun c => (c.extraKeywords, c.params)) =
+    some (["simulator"], [("n", some "2")]) := by decide
+example : Ctrl.init exBeh exSimSig [("n", .plain "2")] [] 1 false false = .error (.check (.missing "simulator")) := by decide
+example : Ctrl.init exBeh exSimSig [("n", .plain "2"), ("simulator", .plain "1")] [] 1 false true =
+    .error (.check (.invalid "simulator")) := by decide
 
 example : exCtrl.paramsInv ["n", "stop"] := ⟨rfl, by decide, fun h => absurd h (by decide)⟩
 
